@@ -3,24 +3,25 @@ import json
 from . import api_common as ac
 from .. import apiuniverse as au
 
-CALLS = ['compile', 'compile_nv', 'get_nodes', 'collect_edges', 'to_yaml', 'deepcopy', 'update_template_copy', 'getitem']
+CALLS = ['compile', 'compile_nv', 'get_nodes', 'collect_edges', 'to_yaml', 'deepcopy', 'update_template_copy', 'getitem', 'derive2']
 
 
 def run(ctx):
     tier = ctx.tier
     ctx.rule = ('TLC explores every history of <= 3 (quick) / 4 (thorough) calls from the read-only / copy-making operations '
                 '(get_nodes, get_edges/collect_edges, get_node_template/__getitem__, to_yaml, deepcopy, update_template() '
-                'without in_place, get_run_func(in_place=False) with and without node_values) over templates that share '
+                'without in_place - also one that adds an edge to an edge-less base -, get_run_func(in_place=False) with and without node_values) over templates that share '
                 'operator and node objects; ReadOnlyPreservesMeaning is an action property on every step; each distinct '
                 'abstract state reached by a compile is replayed: the compiled field must equal the original meaning')
     ctx.assumptions += ['the hierarchical case (collect_edges on nested circuits) is covered by the pinned hierarchy scenario',
                         'second compiles of one template object are subject to known finding D40 (remembered state)']
     behs = ac.dedupe(ac.tlc_behaviours(ctx, 'C14', CALLS, 2 if tier == 'quick' else 3,
-                                       simulate=(300, 4) if tier == 'quick' else (3000, 7)))
+                                       simulate=(300, 4) if tier == 'quick' else (3000, 7), circs={'c1', 'c2', 'c3', 'd2'}))
     ctx.notes['deviations_detected_by'] = {d: ac.vacuity(ctx, CALLS, d) for d in
-                                           ('ApplyWritesVariations', 'ToYamlWritesDefaults', 'CollectEdgesAppends')}
+                                           ('ApplyWritesVariations', 'ToYamlWritesDefaults', 'CollectEdgesAppends', 'DeriveAppendsToEdgelessBase')}
     behs = [b for b in behs if len(b['calls']) >= 2]
-    ac.judge_all(ctx, behs, 'compiled model after read-only operations', cap=1500 if ctx.tier == "quick" else 25000)
+    derived = [b for b in behs if any(c['a'] == 'derive2' for c in b['calls'])]      # a circuit derived from an edge-less base
+    ac.judge_all(ctx, behs, 'compiled model after read-only operations', cap=1500 if ctx.tier == "quick" else 25000, always=derived)
     hierarchy(ctx)
     for b in behs[len(behs) // 2: len(behs) // 2 + 2]:
         ctx.sample(dict(calls=b['calls'], expected_units=b['expM'], dev=b['dev']))
